@@ -71,7 +71,22 @@ def make_world(kind, initial):
 
             def get_nowait(self):
                 sched.yp('qget')
-                return super().get_nowait()
+                return _q.Queue.get(self, False)
+
+            def empty(self):
+                sched.yp('qempty')
+                return super().empty()
+
+            def get(self, block=True, timeout=None):
+                # a blocking get under the cooperative scheduler: try, and while there is nothing, let the others run
+                if not block:
+                    return self.get_nowait()
+                while True:
+                    sched.yp('qget')
+                    try:
+                        return _q.Queue.get(self, False)
+                    except _q.Empty:
+                        sched.yp('sleep')
         p = ParserQueue()
         p._queue = SQueue()
         p._parser_lock = sched.SLock(p._parser_lock, True)
@@ -142,6 +157,8 @@ def thread_fn(port, calls, record, ctx=None):
                 out.append(('put', list(c[1])))
             elif c[0] == 'qpoll':
                 out.append(('got', port.poll()))
+            elif c[0] == 'qget':
+                out.append(('got', port.get()))
         record.extend(out)
         return out
     return f
@@ -495,6 +512,8 @@ def gen_programs(ck):
     # ParserQueue (the queue-backed parser of the backends): byte chunks from several threads
     progs.append(('pqueue', [], [[('putbytes', [next(ids), next(ids)])], [('putbytes', [next(ids)])]]))
     progs.append(('pqueue', [], [[('putbytes', [next(ids), next(ids)])], [('putbytes', [next(ids), next(ids)])], [('qpoll',)]]))
+    # two receivers blocked in get() (what rtmidi's Input.receive() is) while the messages arrive one by one
+    progs.append(('pqueue', [], [[('putbytes', [next(ids)])], [('putbytes', [next(ids)])], [('qget',)], [('qget',)]]))
     # echo with iter_pending
     progs.append(('echo', [next(ids)], [[('send', next(ids))], [('pending',)], [('poll',)]]))
     # two ports forwarding to each other: an open iter_pending() must not keep the port locked
